@@ -404,7 +404,15 @@ impl Ctx {
             Ok(g) => g,
             Err(e) => return Some(format!("err create:{e:?}")),
         };
-        let rumor = g.welcome_rumors.first()?.clone();
+        let mut rumor = g.welcome_rumors.first()?.clone();
+        if field(t, "content") == Some("trail") {
+            // the serialised MLS welcome followed by three extra bytes
+            let mut b = BASE64.decode(&rumor.content).ok()?;
+            b.extend_from_slice(&[0, 1, 2]);
+            rumor.content = BASE64.encode(&b);
+            rumor.id = None;
+            rumor.ensure_id();
+        }
         let tags: Vec<Tag> = rumor.tags.iter().cloned().collect();
         let wrapper = EventId::from_slice(&rand_id()).ok()?;
         let (verdict, rt) = match self.mdk_b.process_welcome(&wrapper, &rumor) {
